@@ -262,6 +262,7 @@ func (g *Gen) Step() bool {
 		choice{g.wt("httppost"), func() { g.opHTTP("POST") }},
 		choice{g.wt("hostilehttp"), g.opHostileHTTP},
 		choice{g.wt("inject"), func() { g.opInject(conns, pend) }},
+		choice{g.wt("cidevent") * boolInt(len(conns) > 0), func() { g.opCIDEvent(conns) }},
 		choice{g.wt("badanswer") * boolInt(len(pend) > 0), func() { g.opBadAnswer(pend) }},
 		choice{g.wt("sleep") * boolInt(g.w.Cfg.UnsubDelayMs > 0), func() {
 			g.w.Exec(Op{K: "sleep", N: g.w.Cfg.UnsubDelayMs/2 + rapid.IntRange(0, g.w.Cfg.UnsubDelayMs).Draw(g.t, "sleepms")})
@@ -824,4 +825,20 @@ func (g *Gen) opBadAnswer(pend []PendingView) {
 		op.P = `{"resource":{"rid":` + bj + `}}`
 	}
 	g.w.Exec(op)
+}
+
+// opCIDEvent mutates (and announces) the {cid} resource instance of one connection.
+func (g *Gen) opCIDEvent(conns []*Client) {
+	c := g.conn(conns)
+	if c.CID == "" {
+		return
+	}
+	for _, d := range g.w.Cfg.Resources {
+		if d.PerCID && d.Type == "model" {
+			name := strings.Replace(d.Name, "{cid}", c.CID, -1)
+			v := g.w.Svc.Fresh()
+			g.w.Exec(Op{K: "mut", S: name, O: "set", Key: "k", Val: &v})
+			return
+		}
+	}
 }
